@@ -206,7 +206,7 @@ def main(tier, seed):
         f = os.path.join(wd, "in.exp")
         open(f, "w", encoding="latin-1").write(text)
         limit = 120 if cls.startswith("shipped") else 60
-        rc, so, se = sh([os.path.join(bdir, "bin", tool), f], cwd=wd, timeout=limit,
+        rc, so, se = sh([os.path.join(bdir, "bin", tool), f], cwd=wd, timeout=limit * 10, cpu=limit,
                         env={"ASAN_OPTIONS": "detect_leaks=0:abort_on_error=0:exitcode=99", "UBSAN_OPTIONS": "print_stacktrace=1:halt_on_error=1:exitcode=98"})
         shutil.rmtree(wd, ignore_errors=True)
         return ci, tool, rc, (so + se)
